@@ -25,7 +25,9 @@ import (
 	"math/big"
 	"net/http"
 	"os"
+	"os/exec"
 	"runtime"
+	"runtime/debug"
 	"sort"
 	"strconv"
 	"strings"
@@ -1341,7 +1343,7 @@ func streamPool(w *casefile.Writer, seed uint64, rounds int) {
 	r := rng.New(seed ^ 0xC20A)
 	for round := 0; round < rounds; round++ {
 		big := bigDoc(r, r.Range(70, 200), nil)
-		in := map[string]any{"pool_seed_round": round, "big_doc_bytes": len(big)}
+		in := map[string]any{"pool": seed, "pool_round": round, "big_doc_bytes": len(big)}
 		pool := keyPool(r)
 		n := r.Range(3, 5)
 		held := make([]*storeapi.VerifC20Filter, n)
@@ -1362,12 +1364,14 @@ func streamPool(w *casefile.Writer, seed uint64, rounds int) {
 		}
 		// everything is prepared: from here to the identity check nothing else allocates much, so that a
 		// garbage collection (which empties sync.Pools) is unlikely to hide a leaked decoder
+		gc := debug.SetGCPercent(-1)
 		f1 := storeapi.VerifC20Acquire([]string{"small"}, false)
 		out := f1.Filter(big)
 		f1.Release()
 		for i := range held {
 			held[i] = storeapi.VerifC20Acquire(fields[i], allow[i])
 		}
+		debug.SetGCPercent(gc)
 		for i := range held {
 			for j := i + 1; j < n; j++ {
 				sf, sd := storeapi.VerifC20FilterIdentity(held[i], held[j])
@@ -1478,7 +1482,108 @@ func streamConcurrent(w *casefile.Writer, seed uint64, iters int) {
 		return jobs[o.g].docs[o.pos], jobs[o.g].fields, jobs[o.g].allow
 	})
 
-	// ---- end to end
+	// ---- end to end, in a child process: a store that panics in a gRPC handler takes its process down
+	runConcChild(w, seed, iters, extra)
+}
+
+// rec / sink: what the child observed, applied to the case writer by the parent
+type rec struct {
+	Kind   string         `json:"kind"` // one page violate count
+	Class  string         `json:"class"`
+	What   string         `json:"what"`
+	Doc    []byte         `json:"doc"`
+	Fields []string       `json:"fields"`
+	Allow  bool           `json:"allow"`
+	Out    []byte         `json:"out"`
+	Unf    [][]byte       `json:"unf"`
+	Fil    [][]byte       `json:"fil"`
+	In     map[string]any `json:"in"`
+}
+
+type sink struct{ recs []rec }
+
+func (s *sink) Violate(fp, what string, in map[string]any) {
+	s.recs = append(s.recs, rec{Kind: "violate", Class: fp, What: what, In: in})
+}
+func (s *sink) Count(k string) { s.recs = append(s.recs, rec{Kind: "count", Class: k}) }
+
+func (s *sink) apply(w *casefile.Writer) {
+	for _, r := range s.recs {
+		switch r.Kind {
+		case "violate":
+			w.Violate(r.Class, r.What, r.In)
+		case "count":
+			w.Count(r.Class)
+		case "one":
+			emitOne(w, r.Class, r.Doc, r.Fields, r.Allow, r.Out, r.In)
+		case "page":
+			pageCase(w, r.Class, r.Unf, r.Fil, r.Fields, r.Allow, r.In)
+		}
+	}
+}
+
+type tailBuf struct {
+	mu sync.Mutex
+	b  []byte
+}
+
+func (t *tailBuf) Write(p []byte) (int, error) {
+	t.mu.Lock()
+	defer t.mu.Unlock()
+	t.b = append(t.b, p...)
+	if len(t.b) > 1<<18 {
+		t.b = append([]byte{}, t.b[len(t.b)-(1<<17):]...)
+	}
+	return len(p), nil
+}
+
+func runConcChild(w *casefile.Writer, seed uint64, iters int, extra map[string]any) {
+	f, err := os.CreateTemp("", "verif-c20-conc-*.json")
+	if err != nil {
+		panic(err)
+	}
+	f.Close()
+	defer os.Remove(f.Name())
+	cmd := exec.Command(os.Args[0], "-concchild", f.Name(), "-seed", fmt.Sprint(seed), "-conciters", fmt.Sprint(iters), "-out", os.TempDir())
+	tb := &tailBuf{}
+	cmd.Stderr = tb
+	cmd.Stdout = tb
+	if err := cmd.Run(); err != nil {
+		// keep the panic message and the first frames
+		txt := string(tb.b)
+		if i := strings.Index(txt, "panic:"); i >= 0 {
+			txt = txt[i:]
+		} else if i := strings.Index(txt, "fatal error:"); i >= 0 {
+			txt = txt[i:]
+		}
+		lines := strings.Split(txt, "\n")
+		if len(lines) > 14 {
+			lines = lines[:14]
+		}
+		w.Violate("crash:concurrent-fetch", "the process serving several filtered fetches at once (after a big document went through a filter) died: "+
+			err.Error()+": "+strings.Join(lines, " | "), extra)
+		return
+	}
+	b, err := os.ReadFile(f.Name())
+	if err != nil {
+		panic(err)
+	}
+	var s sink
+	if err := json.Unmarshal(b, &s.recs); err != nil {
+		panic(err)
+	}
+	s.apply(w)
+}
+
+// concE2E is what the child does
+func concE2E(seed uint64, iters int) *sink {
+	w := &sink{}
+	extra := map[string]any{"concurrent_seed": seed, "iters": iters}
+	r := rng.New(seed ^ 0xC20D)
+	const G = 6
+	pool := keyPool(r)
+	var mu sync.Mutex
+	var wg sync.WaitGroup
 	conf.UseSeqQLByDefault = true
 	c := startCluster(2)
 	defer c.stop()
@@ -1501,14 +1606,14 @@ func streamConcurrent(w *casefile.Writer, seed uint64, iters int) {
 	}
 	if err := c.bulkSpread(r, docs); err != nil {
 		w.Violate("page:bulk-error", "bulk of valid JSON objects failed: "+err.Error(), extra)
-		return
+		return w
 	}
 	c.env.WaitIdle()
 	w.Count(fmt.Sprintf("concurrent-cluster:shards=%d,with-docs=%d", c.shards, c.shardsWithDocs()))
 	qpr, plain, _, err := c.env.Search("*", nd+5)
 	if err != nil || len(plain) != nd {
 		w.Violate("page:error", fmt.Sprintf("unfiltered search: %v, %d of %d documents", err, len(plain), nd), extra)
-		return
+		return w
 	}
 	// the big documents once through every path with a filter that keeps them big (sequential; page cases)
 	for _, via := range []string{"page-search", "page-documents", "page-store-fetch"} {
@@ -1520,7 +1625,7 @@ func streamConcurrent(w *casefile.Writer, seed uint64, iters int) {
 			w.Violate("page:error", err.Error(), in)
 			continue
 		}
-		pageCase(w, via, a, b, fields, allow, in)
+		w.recs = append(w.recs, rec{Kind: "page", Class: via, Unf: a, Fil: b, Fields: fields, Allow: allow, In: in})
 	}
 	// G requests over disjoint sets of documents (g gets the positions congruent g mod G), at once
 	type ejob struct {
@@ -1552,7 +1657,7 @@ func streamConcurrent(w *casefile.Writer, seed uint64, iters int) {
 	}
 	eseen := map[concOut]bool{}
 	var errs []string
-	eiters := iters / 2
+	eiters := iters
 	for g := 0; g < G; g++ {
 		wg.Add(1)
 		go func(g int) {
@@ -1635,12 +1740,18 @@ func streamConcurrent(w *casefile.Writer, seed uint64, iters int) {
 			w.Violate("page:error", "concurrent "+e, extra)
 		}
 	}
-	emitConc(w, eseen, "concurrent-fetch", extra, func(o concOut) ([]byte, []string, bool) {
-		return plain[o.pos], ej[o.g].fields, ej[o.g].allow
-	})
+	for _, o := range sortedConc(eseen) {
+		ex := map[string]any{"request": o.g, "via": o.via}
+		for k, v := range extra {
+			ex[k] = v
+		}
+		w.recs = append(w.recs, rec{Kind: "one", Class: "concurrent-fetch", Doc: plain[o.pos], Fields: ej[o.g].fields, Allow: ej[o.g].allow, Out: []byte(o.out), In: ex})
+	}
+	return w
 }
 
-func emitConc(w *casefile.Writer, seen map[concOut]bool, class string, extra map[string]any, of func(concOut) ([]byte, []string, bool)) {
+
+func sortedConc(seen map[concOut]bool) []concOut {
 	all := make([]concOut, 0, len(seen))
 	for o := range seen {
 		all = append(all, o)
@@ -1658,7 +1769,11 @@ func emitConc(w *casefile.Writer, seen map[concOut]bool, class string, extra map
 		}
 		return x.out < y.out
 	})
-	for _, o := range all {
+	return all
+}
+
+func emitConc(w *casefile.Writer, seen map[concOut]bool, class string, extra map[string]any, of func(concOut) ([]byte, []string, bool)) {
+	for _, o := range sortedConc(seen) {
 		doc, fields, allow := of(o)
 		ex := map[string]any{"request": o.g, "via": o.via}
 		for k, v := range extra {
@@ -1675,7 +1790,20 @@ func main() {
 	tier := flag.String("tier", "quick", "")
 	out := flag.String("out", "", "")
 	replay := flag.String("replay", "", "")
+	concChild := flag.String("concchild", "", "internal: run the concurrent end-to-end stage and write its records to this file")
+	concItersFlag := flag.Int("conciters", 200, "internal")
 	flag.Parse()
+	if *concChild != "" {
+		s := concE2E(*seed, *concItersFlag)
+		b, err := json.Marshal(s.recs)
+		if err != nil {
+			panic(err)
+		}
+		if err := os.WriteFile(*concChild, b, 0o644); err != nil {
+			panic(err)
+		}
+		return
+	}
 	if *out == "" {
 		fmt.Fprintln(os.Stderr, "need -out")
 		os.Exit(2)
@@ -1697,7 +1825,7 @@ func main() {
 		return
 	}
 	r := rng.New(*seed)
-	nFilter, nDup, nPipe, nReq, rounds, perRound, queries, concIters := 5000, 1200, 1500, 600, 2, 24, 40, 200
+	nFilter, nDup, nPipe, nReq, rounds, perRound, queries, concIters := 5000, 1200, 1500, 600, 2, 24, 40, 300
 	if *tier == "thorough" {
 		nFilter, nDup, nPipe, nReq, rounds, perRound, queries, concIters = 120000, 12000, 20000, 8000, 8, 60, 120, 1500
 	}
